@@ -43,7 +43,12 @@ PROP = {
                   "sequences of compiled generated programs, arbitrary bytes): Go bytes = model bytes, Go decode = "
                   "model decode, and the round trip itself is the oracle. Compilation determinism: correspondence "
                   "only (partial) - stream `compiledet` recompiles generated programs 5x in-process and once in a "
-                  "fresh process and compares printed program, function/constant/type/global tables and byte code.",
+                  "fresh process and compares printed program, function/constant/type/global tables and byte code; "
+                  "multi-program scenarios (12 at quick: leaf contracts with enums, interface programs importing "
+                  "several of them by separate import statements with pre/post conditions using them, a target whose "
+                  "types inherit those conditions) compile the whole set 4x and the target 41x against the same "
+                  "compiled dependencies and compare printed program (resolved and raw operands), imports, globals, "
+                  "constants, types and byte code.",
     "level_note": "Compilation determinism is CC only (partial): no theorem covers the compiler; the generated programs "
                   "are a small typed fragment (interfaces with default functions and conditions, structs, resources, "
                   "enums, closures, loops, containers, string templates). Code >= 2^16 bytes (uint16 instruction "
